@@ -238,7 +238,7 @@ def generate():
         ids = range(k * CHUNK, min(len(table), (k + 1) * CHUNK))
         w("def chunk%d : List ClassDef := [%s]" % (k, ", ".join("c%d" % i for i in ids)))
     w("def chunks : List (List ClassDef) := [%s]" % ", ".join("chunk%d" % k for k in range(nchunks)))
-    w("def classList : List ClassDef := %s" % (" ++ ".join("chunk%d" % k for k in range(nchunks)) or "[]"))
+    w("def classList : List ClassDef := chunks.flatten")
     w("def classCount : Nat := %d" % len(table))
     w("def chunkCount : Nat := %d" % nchunks)
     w("")
